@@ -60,9 +60,10 @@ Definition predicted_missing : list string :=
 
 (* deviations of probes: (id, what the pinned otto answers, finding class) *)
 Definition probe_exceptions : list (string * string * Z) :=
-  [ (* class 2: RegExp.prototype is not a RegExp; test/exec on it die of a Go nil dereference
-       (seen inside try/catch as a thrown non-Error value, outside it the panic escapes Run) *)
-    ("kind:RegExp.prototype", "[object RegExp],threw undefined,threw undefined,/undefined/", 2) ].
+  [ (* class 2: RegExp.prototype is not a complete RegExp: it matches like /(?:)/ (since b602a64,
+       which repaired the Go nil dereference of test/exec) but still has no source, so
+       RegExp.prototype.toString() prints /undefined/ *)
+    ("kind:RegExp.prototype", "[object RegExp],true,true,/undefined/", 2) ].
 
 Definition verdict (c : case) : Z * Z :=
   match c with
